@@ -764,7 +764,7 @@ impl Prop for C18 {
     }
     fn runs(&self, tier: Tier) -> u64 {
         match tier {
-            Tier::Quick => 1_500_000,
+            Tier::Quick => 4_000_000,
             Tier::Thorough => 40_000_000,
         }
     }
